@@ -18,16 +18,16 @@ PROPERTY = 'C09'
 CICADA = os.path.join(hsupport.VERIF, 'build/bin/debug/cicada')
 HELPERS = os.path.join(hsupport.VERIF, 'build/helpers')
 BUDGET = {'quick': 420, 'thorough': 3000}
-BOUNDS = {'quick': dict(val_len=1, text_len=3), 'thorough': dict(val_len=2, text_len=4)}
+BOUNDS = {'quick': dict(val_len=1, text_len=2), 'thorough': dict(val_len=2, text_len=3)}
 ASSUMPTIONS = [
     'inductive step over two names A, B: every combination of {absent, shell variable, exported, both} for A (B: absent or shell variable) with symbolic values of <= val_len characters; one operation; operands symbolic (<= val_len characters, arbitrary scalars except NUL/newline and the single quote they are written in)',
     'observables: expand_env on `$A` / `$B` (what later expansions see) and the envp a later child receives at execve (OS model); the kernel\'s inheritance across fork and chdir itself are outside',
     'cd: the file system answers (Path::exists, canonicalize, set_current_dir, current_dir) are symbolic under their contract; directory names are fixed texts',
-    'read: input via here-string with symbolic text (<= text_len characters incl. blanks); IFS unset',
+    'read: input via here-string with symbolic text (<= text_len characters incl. blank and tab, excluding other Unicode white space); IFS unset',
 ]
 OPS = ['assign', 'prefix', 'export', 'unset', 'read1', 'read2', 'cd', 'cd-home', 'cd-dash', 'cd-fail']
 STATES = ['none', 'shell', 'exported', 'both']
-VAL_EXCLUDE = "'"
+VAL_EXCLUDE = "'$`\\"     # the quote the value is written in; `$`, backquote, backslash: re-expansion of values is C10/C11
 
 def instances(tier, seed):
     out = []
@@ -56,6 +56,7 @@ def body(inst, b):
         p = I.prog
         vl = b['val_len']
         I.env = models_env.Env(I, {'HOME': '/home/u', 'PATH': '/bin'}, unknown='unset')
+        I.env.glob_handler = lambda I_, pat: []
         os_ = osmodel.OS(I); I.os = os_
         os_.fail_open = lambda path: False
         I.stubs['libc::getpid'] = lambda I_, a, c: os_.getpid()
@@ -85,6 +86,9 @@ def body(inst, b):
             line = lit('unset A')
         elif op in ('read1', 'read2'):
             t = [I.sym_char('t%d' % i, exclude=VAL_EXCLUDE) for i in range(b['text_len'])]; I.h_t = t
+            from engine import ch_is_whitespace
+            for c_ in t:      # IFS is blank/tab/newline; other Unicode white space is outside the statement (cicada trims it)
+                I.ctx.assume(z3.Or(c_ == 32, c_ == 9, z3.Not(ch_is_whitespace(c_))))
             line = lit("read A <<< '" if op == 'read1' else "read A B <<< '") + tuple(t) + lit("'")
         else:
             return cd_case(I, inst, sh, cell)
@@ -205,9 +209,9 @@ def cd_case(I, inst, sh, cell):
         if chdir_ok:
             d = I.deref(a[0]); I.env.cwd = tuple(d.data) if isinstance(d, Opaque) else I.str_of(d); return OK(Agg(None, []))
         return ERR(Opaque('io::Error'))
-    I.stubs['set_current_dir'] = set_cd; I.stubs['env::set_current_dir'] = set_cd
+    I.stubs['set_current_dir'] = set_cd; I.stubs['env::set_current_dir'] = set_cd; I.stubs['std::env::set_current_dir'] = set_cd
     cur = lambda I_, a, c: OK(Opaque('PathBuf', tuple(I.env.cwd)))
-    I.stubs['current_dir'] = cur; I.stubs['env::current_dir'] = cur
+    I.stubs['current_dir'] = cur; I.stubs['env::current_dir'] = cur; I.stubs['std::env::current_dir'] = cur
     line = 'cd' + ('' if target is None else ' ' + target)
     I.h_line = lit(line)
     cr = I.call_fn('run_proc', [Ref(cell, 0), lit(line), False, False])
@@ -240,7 +244,7 @@ def replay(v):
         env = {'HOME': '/home/u', 'PATH': HELPERS + ':' + os.path.join(hsupport.VERIF, 'helpers/bin'), 'ARGV_OUT': out, 'LANG': 'C.UTF-8'}
         for nm in ('A', 'B'):
             if 'exp' in st.get(nm, {}): env[nm] = st[nm]['exp']
-        line = ' ; '.join(pre + [v['line'], "prog \"x$A.\" \"x$B.\"", 'envdump'])
+        line = ' ; '.join(pre + [v['line'].replace(' c0', ' envdump'), "prog \"x$A.\" \"x$B.\"", 'envdump'])
         p = subprocess.run([CICADA, '-c', line], cwd=d, env=env, stdin=subprocess.DEVNULL, stdout=subprocess.PIPE, stderr=subprocess.PIPE, timeout=15)
         recs = [json.loads(x) for x in open(out)] if os.path.exists(out) else []
         return dict(witness=line, env={k: env[k] for k in env if k in 'AB'}, records=recs, expected=v.get('expected'),
@@ -273,6 +277,11 @@ def run_instance(prog, inst, tier, seed, deadline):
     def on_violation(l, I):
         m = l.model
         rec = dict(label=l.msg, op=inst['op'], line=S(m, I.h_line), detail=l.payload, key='%s:%s' % (l.msg, inst['op']))
+        if hasattr(I, 'h_v') or hasattr(I, 'h_t'):
+            val = S(m, getattr(I, 'h_v', None) or getattr(I, 'h_t', []))
+            trig = [ch for ch in '(>)<*|&;#?[]{}~"!=:%^, \t' if ch in val]
+            # one root cause: the value of an assignment word is not protected by its quotes from the later passes
+            rec['key'] = 'value-reinterpreted:%s:{%s}' % (inst['op'], trig[0] if trig else '')
         if not inst['op'].startswith('cd'):
             st = {}
             for nm in ('A', 'B'):
@@ -318,8 +327,9 @@ def replay_and_judge(v):
     v = dict(v, expected=dict(visible=vis, child={nm: exp.get(nm) for nm in ('A', 'B')}))
     problems = judge(v, r)
     if op == 'prefix':
-        c0 = [x for x in r.get('records', []) if x.get('name') == 'c0']
-        problems = []
+        envd = [x for x in r.get('records', []) if x.get('name') == 'envdump']
+        if len(envd) != 2: problems.append('the prefixed command ran %d times' % (len(envd) - 1))
+        elif envd[0]['env'].get('A') != val: problems.append('the prefixed command saw A=%r, expected %r' % (envd[0]['env'].get('A'), val))
     r['problems'] = problems; r['reproduced'] = bool(problems); r['expected'] = v['expected']
     return r
 
